@@ -8,7 +8,7 @@ CHECK = {
     "manifest": {
         "engine": "ENUM",
         "technique": "bounded-exhaustive enumeration of conversion inputs, each round trip compared with the specification the input was built from",
-        "text": "Errors (codes 1..16 x ~145 messages incl. every 1-byte UTF-8 string and %-strings x all ordered lists of 0-2 [thorough 0-3] details from a pool of 8) are sent through Proto->Connect->Proto, ConvertErrorToProtoError, Proto->gRPC status->Proto and the mixed chains; header lists (<=2 [3] entries; names in 3 case variants, repeated keys, -bin keys; all 1-byte and a sample of 2-3 byte binary values) through AddHeaders/ConvertToProtoHeader, ProtoHeader->MD->ProtoHeader, MD->ProtoHeader->MD (also converting the same object twice) and AppendToOutgoingContext; PercentEncodeMessage on every byte string of length <=2 and all 3-byte strings over a 16 [40] byte alphabet with an independent decoder; both strict codecs on every message descriptor of connectrpc.conformance.v1 x a bounded instance generator (each field alone, pairs, all-set; nesting <=2) for Marshal/MarshalAppend/MarshalStable plus unknown fields of every wire type (top level and nested) and unknown JSON keys; and Unmarshal(Marshal(m)) into a destination that is NOT fresh: pre-populated with every other single-field / all-fields-set instance of the type (singular, repeated, oneof and sub-message fields set), one destination re-used for sequences of three different messages (compared after every step), and re-used after an input rejected for an unknown field (fresh and pre-populated) — the result must equal m each time.",
+        "text": "Errors (codes 1..16 x ~145 messages incl. every 1-byte UTF-8 string and %-strings x all ordered lists of 0-2 [thorough 0-3] details from a pool of 8; plus a grammar of valid but non-canonical encodings - field records reversed / rotated, an unknown field in front / between / behind, non-minimal varints in tags, length prefixes and values, a scalar written explicitly with its default value, a singular field given twice, a packed field written unpacked - applied to 13 values of 11 registered message types, each such detail alone, before / behind a canonical detail and twice) are sent through Proto->Connect->Proto, ConvertErrorToProtoError, Proto->gRPC status->Proto and the mixed chains; header lists (<=2 [3] entries; names in 3 case variants, repeated keys, -bin keys; all 1-byte and a sample of 2-6 byte binary values, so that every padding situation occurs; the base64 text of the -bin values of a header list written unpadded, padded, mixed and in the URL-safe alphabet [for which the raw bytes or the verbatim text are accepted]) through AddHeaders/ConvertToProtoHeader, ProtoHeader->MD->ProtoHeader, MD->ProtoHeader->MD (also converting the same object twice) and AppendToOutgoingContext; PercentEncodeMessage on every byte string of length <=2 and all 3-byte strings over a 16 [40] byte alphabet with an independent decoder; both strict codecs on every message descriptor of connectrpc.conformance.v1 x a bounded instance generator (each field alone, pairs, all-set; nesting <=2) for Marshal/MarshalAppend/MarshalStable plus unknown fields of every wire type (top level and nested) and unknown JSON keys; and Unmarshal(Marshal(m)) into a destination that is NOT fresh: pre-populated with every other single-field / all-fields-set instance of the type (singular, repeated, oneof and sub-message fields set), one destination re-used for sequences of three different messages (compared after every step), and re-used after an input rejected for an unknown field (fresh and pre-populated) — the result must equal m each time.",
         "note": "Oracles come from the property text (identity on code/message/type URL/bytes; per-key value sequences; base64 applied exactly once, judged with encoding/base64; printable ASCII + invertibility with a hand-written decoder; proto.Equal). Foreign type-URL prefixes are only required to keep the type name. Header entries without values are not required to survive.",
         "design_ref": "DESIGN.md §2.2, §4 C18",
     },
